@@ -274,8 +274,8 @@ def logspace_rule(ctx):
     from ..astutil import const_number
 
     res, n = _logspace(ctx.p)
-    if n < 40:
-        raise AnalysisIncomplete("NUM-LOGSPACE: %d log calls examined (< 40 confirmed by hand)" % n)
+    if n < 30:
+        raise AnalysisIncomplete("NUM-LOGSPACE: %d log calls examined (< 30; the count on the pinned tree is larger, the floor leaves room for merged call sites confirmed by hand)" % n)
     return res
 
 
